@@ -3,6 +3,7 @@ package h_ipamsim
 import (
 	"context"
 	"fmt"
+	"strings"
 	"testing"
 	"testing/synctest"
 	"time"
@@ -22,7 +23,7 @@ func TestSim(t *testing.T) {
 }
 
 func run(r *core.R) {
-	r.FaultDecl("conflict", "error_before", "crash_before", "crash_after", "clock_jump")
+	r.FaultDecl("conflict", "error_before", "crash_before", "crash_after", "clock_jump", "stall")
 	r.ProbeDecl("affinity_confirmed", "released", "reused_after_cooldown", "block_created", "block_deleted", "borrowed_from_non_affine_block",
 		"autoassign_acked", "autoassign_empty", "assignip_acked", "observed_release_rejected", "handle_tainted_by_fault", "restart", "liveness_checked",
 		"concurrent_same_host")
@@ -113,6 +114,16 @@ func run(r *core.R) {
 			a.cur.faulted = true
 		}
 		return f
+	}
+	if w.contention {
+		pJump = 40 + src.Intn(100, "p_jump_c")
+	}
+	w.s.Stall = func(q *sched.Request) int {
+		// a slow node: hold back a write on a block-affinity object (claim, confirm, release) for a while
+		if w.contention && q.Write && strings.Contains(q.Key, "/host/") && src.Chance(200, "stall_claim") {
+			return src.Range(3, 40, "stall_len")
+		}
+		return 0
 	}
 	w.s.TimeJump = func() time.Duration {
 		if !src.Chance(pJump, "t_jump") {
